@@ -283,6 +283,11 @@ func (x *Exec) callProtocol(call *ast.CallExpr, fv *Val, st *St, fr *Frame, k kv
 }
 
 func (x *Exec) rangeIter(n *ast.RangeStmt, st *St, fr *Frame, k func(*St)) {
+	if x.C != nil && x.C.Flags["partial"] {
+		// the contract declares this function only partially covered: the path through the iterator loop is abandoned
+		x.Notes = append(x.Notes, "UNCOVERED PATH: range over an iterator function at "+x.W.pos(n.Pos())+" (contract is marked partial)")
+		return
+	}
 	oos("range over an iterator function at %s", x.W.pos(n.Pos()))
 }
 
